@@ -15,7 +15,10 @@ import (
 // Fonts: /F1 Helvetica (Type1, WinAnsiEncoding) for ASCII tokens; /F2 Helvetica
 // with a /ToUnicode CMap that maps the codes 0x41.. to Hebrew U+05D0.. and the
 // codes 0x61.. to Arabic U+0628.. (the right-to-left runs), 0x30 to U+2022 and
-// 0x31-0x33 to the currency signs U+20AA, U+20AC, U+00A3.
+// 0x31-0x33 to the currency signs U+20AA, U+20AC, U+00A3; /F3 Helvetica with a
+// /ToUnicode CMap in which the codes 0x20-0x7E are themselves. In /F2 and /F3 the
+// code 0x80+i is the i-th mark of marks.go (format, private-use, control and
+// unassigned characters).
 
 func dec(n, den int) string {
 	if den == 1 || n%den == 0 {
@@ -51,7 +54,28 @@ func encodeText(t string) (font string, codes []byte, ok bool) {
 	if ascii {
 		return "F1", []byte(t), true
 	}
+	// ASCII with marks (marks.go): /F3
+	f3 := true
 	for _, r := range t {
+		if _, mark := markCode[r]; !mark && (r >= 0x7f || r < 0x20) {
+			f3 = false
+		}
+	}
+	if f3 {
+		for _, r := range t {
+			if code, mark := markCode[r]; mark {
+				codes = append(codes, code)
+			} else {
+				codes = append(codes, byte(r))
+			}
+		}
+		return "F3", codes, true
+	}
+	for _, r := range t {
+		if code, mark := markCode[r]; mark {
+			codes = append(codes, code)
+			continue
+		}
 		switch {
 		case r >= 0x05D0 && r <= 0x05EA:
 			codes = append(codes, byte(0x41+r-0x05D0))
@@ -72,14 +96,27 @@ func encodeText(t string) (font string, codes []byte, ok bool) {
 	return "F2", codes, true
 }
 
-func toUnicodeCMap() string {
+func toUnicodeCMap() string { return toUnicodeCMapOf(false) }
+
+// toUnicodeCMapOf: the CMap of /F2 (Hebrew, Arabic, bullet, currency signs) or, with
+// ascii, of /F3 (the codes 0x20-0x7E are themselves); both map 0x80+i to the i-th mark.
+func toUnicodeCMapOf(ascii bool) string {
 	var b strings.Builder
 	b.WriteString("/CIDInit /ProcSet findresource begin\n12 dict begin\nbegincmap\n")
 	b.WriteString("/CIDSystemInfo << /Registry (Adobe) /Ordering (UCS) /Supplement 0 >> def\n")
 	b.WriteString("/CMapName /Adobe-Identity-UCS def\n/CMapType 2 def\n")
 	b.WriteString("1 begincodespacerange\n<00> <FF>\nendcodespacerange\n")
-	b.WriteString("2 beginbfrange\n<41> <5B> <05D0>\n<61> <73> <0628>\nendbfrange\n")
-	b.WriteString("4 beginbfchar\n<30> <2022>\n<31> <20AA>\n<32> <20AC>\n<33> <00A3>\nendbfchar\n")
+	if ascii {
+		b.WriteString("1 beginbfrange\n<20> <7E> <0020>\nendbfrange\n")
+	} else {
+		b.WriteString("2 beginbfrange\n<41> <5B> <05D0>\n<61> <73> <0628>\nendbfrange\n")
+		b.WriteString("4 beginbfchar\n<30> <2022>\n<31> <20AA>\n<32> <20AC>\n<33> <00A3>\nendbfchar\n")
+	}
+	fmt.Fprintf(&b, "%d beginbfchar\n", len(allMarks))
+	for i, r := range allMarks {
+		fmt.Fprintf(&b, "<%02X> <%04X>\n", 0x80+i, r)
+	}
+	b.WriteString("endbfchar\n")
 	b.WriteString("endcmap\nCMapName currentdict /CMap defineresource pop\nend\nend\n")
 	return b.String()
 }
@@ -98,7 +135,7 @@ func writePDF(p Page) []byte {
 	obj("<< /Type /Font /Subtype /Type1 /BaseFont /Helvetica /ToUnicode 5 0 R >>")
 	cm := toUnicodeCMap()
 	obj(fmt.Sprintf("<< /Length %d >>\nstream\n%sendstream", len(cm), cm))
-	obj(fmt.Sprintf("<< /Type /Page /Parent 2 0 R /MediaBox [0 0 %s %s] /Resources << /Font << /F1 3 0 R /F2 4 0 R >> >> /Contents 7 0 R >>",
+	obj(fmt.Sprintf("<< /Type /Page /Parent 2 0 R /MediaBox [0 0 %s %s] /Resources << /Font << /F1 3 0 R /F2 4 0 R /F3 8 0 R >> >> /Contents 7 0 R >>",
 		dec(p.W, p.Den), dec(p.H, p.Den)))
 	var cs bytes.Buffer
 	for _, f := range p.F {
@@ -109,6 +146,10 @@ func writePDF(p Page) []byte {
 		fmt.Fprintf(&cs, "BT\n/%s %s Tf\n1 0 0 1 %s %s Tm\n(%s) Tj\nET\n", font, dec(f.FS, p.Den), dec(f.X, p.Den), dec(f.Y, p.Den), pdfEscape(codes))
 	}
 	obj(fmt.Sprintf("<< /Length %d >>\nstream\n%sendstream", cs.Len(), cs.String()))
+	// /F3 and its ToUnicode CMap come last: the numbers of the other objects are as before
+	obj("<< /Type /Font /Subtype /Type1 /BaseFont /Helvetica /ToUnicode 9 0 R >>")
+	cm3 := toUnicodeCMapOf(true)
+	obj(fmt.Sprintf("<< /Length %d >>\nstream\n%sendstream", len(cm3), cm3))
 	xref := buf.Len()
 	fmt.Fprintf(&buf, "xref\n0 %d\n", len(offs)+1)
 	buf.WriteString("0000000000 65535 f \n")
@@ -141,8 +182,8 @@ func writePDFPages(ps []Page) []byte {
 	cm := toUnicodeCMap()
 	obj(fmt.Sprintf("<< /Length %d >>\nstream\n%sendstream", len(cm), cm))
 	for i, p := range ps {
-		obj(fmt.Sprintf("<< /Type /Page /Parent 2 0 R /MediaBox [0 0 %s %s] /Resources << /Font << /F1 3 0 R /F2 4 0 R >> >> /Contents %d 0 R >>",
-			dec(p.W, p.Den), dec(p.H, p.Den), 7+2*i))
+		obj(fmt.Sprintf("<< /Type /Page /Parent 2 0 R /MediaBox [0 0 %s %s] /Resources << /Font << /F1 3 0 R /F2 4 0 R /F3 %d 0 R >> >> /Contents %d 0 R >>",
+			dec(p.W, p.Den), dec(p.H, p.Den), 6+2*len(ps), 7+2*i))
 		var cs bytes.Buffer
 		for _, f := range p.F {
 			font, codes, ok := encodeText(f.T)
@@ -153,6 +194,9 @@ func writePDFPages(ps []Page) []byte {
 		}
 		obj(fmt.Sprintf("<< /Length %d >>\nstream\n%sendstream", cs.Len(), cs.String()))
 	}
+	obj(fmt.Sprintf("<< /Type /Font /Subtype /Type1 /BaseFont /Helvetica /ToUnicode %d 0 R >>", 7+2*len(ps)))
+	cm3 := toUnicodeCMapOf(true)
+	obj(fmt.Sprintf("<< /Length %d >>\nstream\n%sendstream", len(cm3), cm3))
 	xref := buf.Len()
 	fmt.Fprintf(&buf, "xref\n0 %d\n", len(offs)+1)
 	buf.WriteString("0000000000 65535 f \n")
